@@ -6,6 +6,7 @@ import RTV.Lemmas.SpellOrdDe
 import RTV.Lemmas.SpellOrdNl
 import RTV.Lemmas.SpellOrdFr
 import RTV.Lemmas.SpellOrdIt
+import RTV.Lemmas.SpellOrdDeBig
 /-!
 # C04 — French and Italian cardinals at and above 1000; ordinals below 1000 of six European cultures
 
@@ -178,6 +179,21 @@ misspells `vierzigst…` as `vierziegt…`: 40th–49th of every hundred are nev
 `de-de:ordinal:vierzig:no-entity`; `__get_int_value` on their tokens is right.) -/
 theorem german_ordinal_sub1000 (n : Nat) (h1 : 1 ≤ n) (h : n < 1000) :
     getIntValue true asciiDigits de.lang (spellOrdEu deOrd n).2 = .ok n := de_ord_all n h1 h rfl
+
+/-- **C04 (German ordinals), every `1 ≤ n < 10^6`** (`spellOrdDe`: `eintausendste`, `zweitausenderste`,
+`einundzwanzigtausendeinhundertdreiundvierzigste`): the thousands by the structural `thousand_group`, the remainder as it
+is written (and tokenised) inside the compound by kernel evaluation. -/
+theorem german_ordinal_sub1e6 (n : Nat) (h1 : 1 ≤ n) (h : n < 1000000) :
+    getIntValue true asciiDigits de.lang (spellOrdDe n).2 = .ok n := by
+  by_cases hs : n < 1000
+  · have : spellOrdDe n = spellOrdEu deOrd n := by simp [spellOrdDe, hs]
+    rw [this]; exact german_ordinal_sub1000 n h1 hs
+  · exact de_ord_big n (by omega) h
+
+/-- `zweitausendeinhundertdreiundvierzigste` = 2143rd, tokens `zwei tausend ein hundert drei und vierzig` -/
+example : (spellOrdDe 2143).1 = [122, 119, 101, 105, 116, 97, 117, 115, 101, 110, 100, 101, 105, 110, 104, 117, 110, 100,
+    101, 114, 116, 100, 114, 101, 105, 117, 110, 100, 118, 105, 101, 114, 122, 105, 103, 115, 116, 101] ∧
+    (spellOrdDe 2143).2.length = 7 := by decide +kernel
 
 /-- **C04 (Dutch ordinals)** `eerste` … `negenhonderdnegenennegentigste` -/
 theorem dutch_ordinal_sub1000 (n : Nat) (h1 : 1 ≤ n) (h : n < 1000) :
